@@ -34,7 +34,7 @@ MANIFEST_INFO = {
     "engine": "D",
     "design_ref": "DESIGN.md section 5, C14",
     "technique": "stateless deviation-bounded DFS over stage behaviours of generated Deferred-returning TestCases run by the real AsynchronousDeferredRunTest on the real SelectReactor under a virtual clock; timeout placement, tie order and interrupt instant enumerated; async lifecycle timeline model",
-    "level_text": "Every program whose setUp/test/tearDown/0-2 cleanups each pick one of 20 behaviours (return, raise error/failure/skip/SystemExit, Deferred failing with SystemExit, Deferred firing a few zero-delay reactor iterations after its due time, Deferred already fired / firing or failing after 1 or 2 time units / never firing, leaving a delayed call, logging an error with or without flushing it, dropping a failed Deferred) with at most 3 (quick) / 4 (thorough) deviating stages, for 6 timeouts placed before/at/after the stage boundaries, with <=1 interrupt at any reactor instant, both runner variants and all four logging-option combinations, is executed; bracket, success-iff-clean, error on timeout/interrupt (+stop), stage sequencing by virtual timestamps, reactor cleanliness and log-observer restoration are checked on every execution.",
+    "level_text": "Every program whose setUp/test/tearDown/0-2 cleanups each pick one of 21 behaviours (return, register a further cleanup (also from inside a cleanup), raise error/failure/skip/SystemExit, Deferred failing with SystemExit, Deferred firing a few zero-delay reactor iterations after its due time, Deferred already fired / firing or failing after 1 or 2 time units / never firing, leaving a delayed call, logging an error with or without flushing it, dropping a failed Deferred) with at most 3 (quick) / 4 (thorough) deviating stages, for 6 timeouts placed before/at/after the stage boundaries, with <=1 interrupt at any reactor instant, both runner variants and all four logging-option combinations, is executed; bracket, success-iff-clean, error on timeout/interrupt (+stop), stage sequencing by virtual timestamps, reactor cleanliness and log-observer restoration are checked on every execution.",
     "level_note": "Virtual clock on the real SelectReactor; garbage collection of a dropped failed Deferred relies on CPython reference counting (deterministic); when the chain completes at exactly the timeout instant the verdict must follow the tie order chosen for that execution (timeout first: error; Deferred first and nothing left to wait for: success).",
 }
 
@@ -71,6 +71,7 @@ KINDS = (
     "raise_sysexit",
     "fail1_sysexit",
     "fire1_hops",
+    "reg_cleanup",
 )
 DELAY = {"fire1": 1.0, "fire2": 2.0, "fail1": 1.0, "fail1_falsy": 1.0, "fail1_sysexit": 1.0, "fire1_hops": 1.0}
 # exceptions that do not derive from Exception: reported as an error AND re-raised by run()
@@ -90,7 +91,9 @@ class Ctx:
 
 
 def behave(case, ctx, stage):
-    k = KINDS[ctx.chooser.choose(("beh", stage), len(KINDS))]
+    # (the cleanup that a stage registers does not register another one)
+    menu = KINDS if not stage.startswith("x:") else KINDS[:-1]
+    k = menu[ctx.chooser.choose(("beh", stage), len(menu))]
     ctx.decisions.append((stage, k))
     ctx.stage_log.append((stage, ctx.reactor.rel()))
     r = ctx.reactor
@@ -138,6 +141,10 @@ def behave(case, ctx, stage):
         return None
     if k == "drop_failed":
         defer.fail(StageError(stage))  # dropped at once: reference counting collects it here
+        return None
+    if k == "reg_cleanup":
+        # registers one more cleanup - also when this stage is itself a cleanup
+        case.addCleanup(_cleanup, case, "x:" + stage)
         return None
     if k == "raise_sysexit":
         raise SystemExit(stage)
@@ -234,6 +241,12 @@ def model(ncleanups, decisions, timeout, stage_first_at_tie=False):
             clean = False
         if st == "setUp" and k in FAILING:
             stages = [s for s in stages if s not in ("test", "tearDown")]
+        if k == "reg_cleanup":
+            # the most recently registered cleanup runs first among those still owed
+            pos = 0
+            while pos < len(stages) and stages[pos] in ("test", "tearDown"):
+                pos += 1
+            stages.insert(pos, "x:" + st)
     if tie_timeout:
         timed_out = True
         clean = False
@@ -292,6 +305,12 @@ def execute(config, chooser):
         for e in reactor.log:
             if e[0] == "SIGINT":
                 interrupt_at = e[1]
+        stages_at_end = len(ctx.stage_log)
+        if ctx.stage_log and ctx.stage_log[-1][0].startswith(("c", "x:")) and dict(ctx.decisions).get(ctx.stage_log[-1][0]) in tuple(DELAY) + ("never",):
+            # the run was abandoned while a cleanup's Deferred was unfired (timeout/interrupt): the
+            # suspended cleanup chain is garbage now.  Finalising it must not start anything.
+            # (the young generations only: the chain was created during this execution)
+            gc.collect(1)
         reactor.disarm()
         _, after = _get_global_publisher_and_observers()
         legacy_after = list(tlog.theLogPublisher.observers)
@@ -331,6 +350,10 @@ def execute(config, chooser):
             problems.append(("stage-order", "stages ran as %r, model sequence %r" % (seq, m["sequence"])))
         elif not interrupted and m["timed_out"] is False and seq != m["sequence"]:
             problems.append(("stage-order", "stages ran as %r, model sequence %r" % (seq, m["sequence"])))
+        if len(ctx.stage_log) > stages_at_end:
+            problems.append(("stage-after-end", "stage(s) %r started after run() had returned (when the abandoned cleanup chain was finalised)" % ([s for s, _ in ctx.stage_log[stages_at_end:]],)))
+            del ctx.stage_log[stages_at_end:]
+            del ctx.decisions[stages_at_end:]
         dec = dict(ctx.decisions)
         for (s1, t1), (s2, t2) in zip(ctx.stage_log, ctx.stage_log[1:]):
             need = t1 + DELAY.get(dec[s1], 0.0)
